@@ -28,7 +28,7 @@ ASSUMPTIONS = ["kernel / mean / constraint forward passes are trusted here (C05,
                "stochastic Lanczos log-determinant is NOT decided (statistical estimator); on the CG path only the deterministic value with "
                "skip_logdet_forward is compared"]
 
-FAMS = ["exact", "matern_ard", "sumprod", "linearmean", "fixednoise", "fixednoise_learn", "multitask", "multitask_r0", "sgpr"]
+FAMS = ["exact", "matern_ard", "sumprod", "linearmean", "fixednoise", "fixednoise_learn", "multitask", "multitask_r0", "sgpr", "sgpr2"]
 PRIORS = [(), ("ls",), ("const",), ("noise",), ("os",), ("os_box",), ("ls", "const", "noise", "os"), ("task",), ("shared",)]
 BATCHES = [((), ()), ((2,), (2,)), ((2,), ()), ((), (2,)), ((3, 2), (3, 2)), ((2,), (3, 2)), ((2,), (1,)), ((2,), (2, 2))]
 SHAPES = [(1, 1), (4, 2), (5, 1)]
@@ -47,9 +47,9 @@ def cells(tier, seed):
             continue
         if fam.startswith("multitask") and (len(mb) > 1 or len(db) > 1):
             continue
-        if fam == "sgpr" and (mb or db):
+        if fam in ("sgpr", "sgpr2") and (mb or db):
             continue
-        if obj == "loo" and (fam.startswith("multitask") or fam == "sgpr"):
+        if obj == "loo" and (fam.startswith("multitask") or fam in ("sgpr", "sgpr2")):
             continue
         if shp == (1, 1) and obj == "loo":
             continue
@@ -152,8 +152,23 @@ def dense_objective(model, X, y, obj, mb=()):
     else:
         ll = dense.gauss_logpdf(yv, mean, C)
     total = ll + prior_terms(model, B, mb)
-    for alt in model.added_loss_terms():
-        total = total + alt.loss(X)
+    # added loss terms: an independent walk over the module tree (every registered term object once), not the library's own traversal;
+    # the inducing-point term is written out: -0.5 tr(K_xx - Q_xx) / sigma^2
+    seen = set()
+    for mod in model.modules():
+        for term in getattr(mod, "_added_loss_terms", {}).values():
+            if id(term) in seen:
+                continue
+            seen.add(id(term))
+            if isinstance(mod, gpytorch.kernels.InducingPointKernel):
+                Z = mod.inducing_points
+                bk = mod.base_kernel
+                with S.lazily_evaluate_kernels(False):
+                    Kxx, Kxz, Kzz = bk(X, X).to_dense(), bk(X, Z).to_dense(), bk(Z, Z).to_dense()
+                Q = Kxz @ torch.linalg.solve(Kzz, Kxz.mT)
+                total = total - 0.5 * (Kxx - Q).diagonal(dim1=-1, dim2=-2).sum(-1) / model.likelihood.noise.reshape(())
+            else:
+                total = total + term.loss(X)
     n_obs = prior.event_shape.numel() if obj != "loo" else y.shape[-1]
     return total / n_obs, B
 
